@@ -24,7 +24,7 @@ PROPS.update({
     "C01": dict(PROTO, suites=["c01"], trivial=r"^err:other W=",
         rule="scenario lines: for each base exchange (all widths, text, extreme addresses, short check bytes) every single-character substitution (16 hex digits, ':', newline, 'A', non-hex), deletion, truncation, insertion, random two-character corruptions (incl. check-byte-preserving), all 16 response nibbles, foreign addresses, all 256 flags, splices, noise/async around, lower-case hex, short check-byte-valid frames; device-id frames likewise; spread over 1..8 attempts and chunkings. non-trivial = the call did not simply give up after 8 unanswered attempts' worth of plain rejection, i.e. outcome is a value, a device error or fewer than 8 frames",
         trusted_base=[KERNEL, HARNESS, GOSTD, MODEL_PROTO],
-        assumptions=["bufio.Reader behaves as an unbounded buffer for pending streams < 4096 bytes", CLOCK],
+        assumptions=["bufio.Reader behaves as an unbounded buffer (exercised with up to 40 KiB of pending noise in 1 KiB chunks)", CLOCK],
         explanation="theorems: veCommand_sound, get_sound/getRaw_sound (value only from a complete valid type-7 frame with the requested address, flag 0, correct check byte pending after some attempt's command; payload decoded exactly), get_sound_received (the accepting state is the one reached from the call's state by attempts that all retried, and what was pending there is a subsequence of the bytes pending at the call followed by the replies the port delivered since: bytes are dropped, never invented or reordered), uint/int/string_sound, deviceId_sound, reject_{truncated,wrong_type,odd_length,non_hex,bad_check_byte,foreign_address,nonzero_flag}"),
     "C02": dict(PROTO, suites=["c02"], trivial=r"^$", exhaustive={"quick": False, "thorough": True},
         rule="exhaustive 1-byte values (6 addresses x both accessors), 2-byte values (every 5th + boundaries in quick, all 65536 in thorough), boundary and random 4/8-byte values on random addresses, uninterpretable widths, all strings of length <= 1 (<= 2 thorough) with NUL padding, random strings up to 64 bytes with interior NULs, device ids (every 3rd quick / all 65536 thorough), call histories on one driver with every returned []byte retained and re-compared at the end (aliasing clause); distinct = distinct operation lines",
@@ -41,8 +41,8 @@ PROPS.update({
         trusted_base=[KERNEL, HARNESS, GOSTD, MODEL_PROTO, "errors.Is / fmt.Errorf(%w) (Go) — the harness classifies real errors with errors.Is"],
         assumptions=[CLOCK],
         explanation="theorems: flag_kinds, error_frame_step, device_error_not_retried (typed error returned at once with exactly k frames), accessors_surface_error, api_wraps (every register reader keeps the error kind and attaches the register name; suite c05api: every register of every family x the three flags through the real register API, classified with errors.Is)"),
-    "C06": dict(PROTO, suites=["c06"], trivial=r"^$",
-        rule="structured streams (every response nibble x payload lengths 0..5, the valid frames of type 1/5/7 cut at every length, degenerate frames) x 15 call kinds; a failing Write/Read/Flush at every call index 0..9 for every call kind in three port situations; random byte streams biased to frame characters with embedded real frames and random faults; PANIC is an output value compared with the model",
+    "C06": dict(PROTO, suites=["c06", "c06api@"], trivial=r"^$",
+        rule="(c06api, oracle only: every reader of every register definition through the real register API against a device that is silent / sends garbage / answers once with an odd width and falls silent / refuses: no panic, at most eight command frames per register access) structured streams (every response nibble x payload lengths 0..5, the valid frames of type 1/5/7 cut at every length, degenerate frames) x 15 call kinds; a failing Write/Read/Flush at every call index 0..9 for every call kind in three port situations; random byte streams biased to frame characters with embedded real frames and random faults; PANIC is an output value compared with the model",
         trusted_base=[KERNEL, HARNESS, GOSTD, MODEL_PROTO],
         assumptions=[CLOCK, "memory safety and liveness of the Go runtime, bufio's behaviour on 100 consecutive empty reads and an infinite stream are outside the model", "a hang of the real code shows as a harness timeout (reported as violation)"],
         explanation="theorems: veCommand_no_panic, get_no_panic, typed_no_panic, deviceId_no_panic, ping_no_panic, writes_bounded (<= 8), reads_bounded (<= credit + 8: every Read delivers device data or ends the attempt); totality of every model function is Lean's termination check"),
@@ -61,12 +61,12 @@ PROPS.update({
     "C12": dict(TABLES, suites=["c12"], exhaustive=True, trivial=r"^$",
         rule="all 65536 product ids: the real GetRegisterListByProduct result (error kind + every attribute of every register) is grouped by identical content; per distinct content one SL line compares the full list with Select.list, and SG lines ask the model whether all ids of the group select the same list (500 ids per line) — i.e. full comparison for every id; the Go oracle independently checks class membership, uniqueness, factors, decoders per id",
         trusted_base=[KERNEL, HARNESS, GOSTD, T1, MODEL_TABLES],
-        assumptions=["the load-output class is identified by the current rating (10, 15, 20 A) read off the model designation", "Append functions append the same registers whatever the list already holds (validated by the exhaustive comparison)"],
+        assumptions=["the load-output class is identified by the current rating (10, 15, 20 A) read off the model designation", "a product's class is the one of the product family of its id block (0x02xx BMV, 0xA38x smart BMV / SmartShunt, ...): the oracle reports a product whose type contradicts its id block", "Append functions append the same registers whatever the list already holds (validated by the exhaustive comparison)"],
         explanation="theorems: rows_ok (decide +kernel over every product row), list_by_class (all ids), class_solely, unsupported_empty, supported_ok, lists_ok (names/addresses unique, factors non-zero, decoders present in each of the 5 class lists), load_class"),
     "C13": dict(TABLES, suites=["c13"], exhaustive=True, trivial=r"^0\|\|0\|\|-1\|-1\|0\|$",
         rule="all 65536 product ids (Exists, Model, Type, String, MaxPanelVoltage, MaxPanelCurrent, membership and value in GetStringMap), all 256 type values, all 256 command bytes: real observables vs the lookup in the regenerated table; non-trivial = a known product / named type / any response line; the Go oracle evaluates the property's predicates per id to name an offending id",
         trusted_base=[KERNEL, HARNESS, T1],
-        assumptions=["id ranges of the categories: 0x02xx and 0xA38x BMV; 0x03xx, 0xA0xx, 0xA1xx solar; 0xA2xx and 0xA34x inverter", "Phoenix ids 0xA2xy: x power class, y&7 battery voltage, y&8 120 V AC"],
+        assumptions=["id ranges of the categories: 0x02xx and 0xA38x BMV; 0x03xx, 0xA0xx, 0xA1xx solar; 0xA2xx and 0xA34x inverter; and of the product families within them: 0x02xx BMV, 0xA38x BMV Smart / SmartShunt, 0x03xx BlueSolar, 0xA0xx Blue/SmartSolar MPPT, 0xA1xx their VE.Can variants, 0xA2xx Phoenix Inverter (Smart), 0xA34x IP43 charger", "Phoenix ids 0xA2xy: x power class, y&7 battery voltage, y&8 120 V AC"],
         explanation="theorems: rows_ok / types_ok / ids_ascending / map_size (decide +kernel over the whole tables), known_iff, display_string, one_category, panel_numbers, phoenix_model, types_partition, ten_types — lifted to ALL ids by the lookup lemma"),
     "C14": dict(TABLES, suites=["c14"], trivial=r"^err:invalid-enum$",
         rule="per factory (20): NewEnum over every integer in [-70000, 70000] (summarised as the accepted set with index and name, one ENR line), extreme integers (±2^63, ±2^31, 2^32+k, 2^16+k, …), random 64-bit integers, the typed constructor over all 256 bytes, IntToStringMap; the Go oracle checks 'succeeds iff key, index v, mapped non-empty name, else ErrInvalidEnumIdx' for each integer (coverage.measured.integers_checked)",
@@ -81,7 +81,7 @@ PROPS.update({
     "C16": dict(TABLES, suites=["c16"], trivial=r"^0 ",
         rule="operation sequences over real registers of all three families (shared sort keys 200–205, duplicate names): exhaustive for sequences of length <= 3 (4 thorough) over a 10-letter alphabet (appends of each kind, kind/parity filters, name filters), random sequences up to length 200; after each sequence the four sequences, Len and GetRegisters are compared with the model and with four plain slices + insertion-stable sort (Go reference)",
         trusted_base=[KERNEL, HARNESS, T1, MODEL_TABLES, "core List.mergeSort lemmas (perm, pairwise, sublist stability)"],
-        assumptions=["sharing of backing arrays between copies of a RegisterList struct is outside the property"],
+        assumptions=["Go slices alias: that operations on a list leave an earlier by-value copy untouched holds trivially in the model (values) and is checked on the code by the harness ('k' keeps a copy that is only observed; 'p'/'q' append a caller-owned slice in two parts)"],
         explanation="theorems: run_refines (any op sequence = four independent plain sequences), filter_keeps_order, name_filter_drops_named, len_total, getRegisters_perm, getRegisters_sorted, getRegisters_stable"),
     "C17": dict(TABLES, suites=["c17"], trivial=r"^$",
         rule="every lookup function (product string map, 20 enum + 3 field-list index-to-name maps, Fields()/Decode() of field lists incl. raw 0, GetRegisterListByProduct for each class) x caller mutations (delete, overwrite, insert, in-place delete idiom, in-place sort, element overwrite, library append/filter) x a second and third call (same and sibling product); the later call's full content is compared with the table content of the model and with the first call",
